@@ -3,18 +3,6 @@ from nucsvc.propspec import propagator
 
 I32 = "forall(k, 0, n, -2147483648 <= domains[k, MIN] and domains[k, MAX] <= 2147483647)"  # int32 cells (the element propagators use sys.maxsize as a sentinel)
 
-propagator(REG, "nucs/propagators/element_iv_propagator.py::compute_domains_element_iv",
-    rel="exists(k, 0, m, @T[0] == k and parameters[k] == @T[1])", n_min=2, requires=["n == 2", "m >= 1", I32, "forall(k, 0, m, -2147483648 <= parameters[k] and parameters[k] <= 2147483647)"],
-    unroll_only=True, arities=[{"n": 2, "m": a} for a in (1, 2, 3, 4, 5)])
-
-propagator(REG, "nucs/propagators/element_lic_propagator.py::compute_domains_element_lic",
-    rel="exists(k, 0, n - 1, @T[n - 1] == k and @T[k] == parameters[0])", n_min=2, requires=["m == 1"],
-    unroll_only=True, arities=[{"n": a, "m": 1} for a in (2, 3, 4, 5, 6, 7)])
-
-propagator(REG, "nucs/propagators/element_liv_propagator.py::compute_domains_element_liv",
-    rel="exists(k, 0, n - 2, @T[n - 2] == k and @T[k] == @T[n - 1])", n_min=3, requires=["m == 0", I32],
-    unroll_only=True, arities=[{"n": a, "m": 0} for a in (3, 4, 5, 6)])
-
 define("lexleq(T, p)", "forall(k, 0, p, implies(forall(j, 0, k, T[j] == T[p + j]), T[k] <= T[p + k]))")
 propagator(REG, "nucs/propagators/lexicographic_leq_propagator.py::compute_domains_lexicographic_leq",
     rel="lexleq(@T, n // 2)", n_min=2, requires=["n % 2 == 0", "m == 0"], props=["C05", "C06", "C07", "C14", "C16", "C01", "C08", "C04"],
